@@ -33,6 +33,9 @@ def run_into(rep, tier):
   # by TLC in MC_Lock_*; here the shortest witness of every (finalize outcome, hook sequence) class is replayed)
   # references: a macro referenced explicitly (`@W/gin.macro()` or, equally, `@W/macro()`) is the key its definition is
   # stored under, whichever spelling either side used: finalize must find the definition
+  # constants: defined, abbreviated in config text, and asked for through query_parameter by any unambiguous suffix
+  cc.replay_scenarios(rep, 'GinCore_Scen_const', max_files=600 if tier == 'quick' else 4000, nontrivial=_macro_ref_case,
+                      depth=5 if tier == 'quick' else 7, timeout=200)
   cc.replay_scenarios(rep, 'GinCore_Scen_macrofin', max_files=400 if tier == 'quick' else 3000, nontrivial=_macro_ref_case,
                       depth=5 if tier == 'quick' else 6, timeout=200, salts=(0, 1))
   # config text: a name that matches several configurables is known (never skipped by skip_unknown) and rejected
